@@ -61,6 +61,19 @@ def oracle_lots(rep, text, items):
     if (strictly_desc and not has_flag) or (none_desc and has_flag):
         rep.violation('failing-input', {'call': 'Tract.w_flags', 'text': text, 'items': items,
                                         'expected_nonsequential_flag': strictly_desc, 'observed': t.w_flags})
+        return
+    # the same list read again (a second Tract, and the tracts of a multi-section that share the block): same lots, same warning
+    t2 = pytrs.Tract(text, parse_qq=True)
+    d = pytrs.PLSSDesc('T154N-R97W Sec 4 - 6: ' + text, parse_qq=True)
+    for who, x in [('second Tract with the same text', t2)] + [(f'tract {k} of a multi-section sharing the block', x) for k, x in enumerate(d.tracts)]:
+        flag = any(f.startswith('nonsequential_lots') for f in x.w_flags)
+        if x.lots != t.lots or x.ilots != t.ilots or flag != has_flag:
+            rep.violation('failing-input', {'call': who, 'text': text, 'items': items, 'expected': exp, 'observed': x.lots,
+                                            'expected_nonsequential_flag': has_flag, 'w_flags': x.w_flags})
+            return
+    if [x.sec for x in d.tracts] != ['04', '05', '06']:
+        rep.violation('failing-input', {'call': 'PLSSDesc (multi-section sharing a lot block)', 'text': text,
+                                        'observed': [x.trs for x in d.tracts]})
 
 
 SEC_WORDS = ['Section ', 'Sec ', 'Sec. ', 'Sections ', 'Secs ', '§ ', 'Sec', 'Sect. ', 'section ', 'SECTION ']
